@@ -30,6 +30,7 @@ type gatePacket struct {
 	src, dst   string
 	seq        uint64
 	commitment []byte
+	ack        []byte // hash of an acknowledgement stored on the source chain under the same triple (keeper write)
 	committed  int64 // height of the source chain whose state first contains the commitment
 }
 
@@ -57,10 +58,14 @@ func (g *gateWorld) send() bool {
 		g.r.Inconclusive("gate: crossChainCall emitted %d packets (code %d, vm error %q)", len(sent), res.Code, res.VmError)
 		return false
 	}
-	w.Roll(a)
 	p := sent[0]
+	// an acknowledgement commitment in the same block, so that the acknowledgement side of the gate
+	// (VerifyPacketAcknowledgement) can be driven with real proofs as well
+	ak := sha256.Sum256(append([]byte("ack of "), p.Bytes...))
+	a.App.XIBCKeeper.PacketKeeper.SetPacketAcknowledgement(a.Ctx(), p.Src, p.Dst, p.Packet.Sequence, ak[:])
+	w.Roll(a)
 	c := sha256.Sum256(p.Bytes)
-	g.pks = append(g.pks, gatePacket{src: p.Src, dst: p.Dst, seq: p.Packet.Sequence, commitment: c[:], committed: a.Height()})
+	g.pks = append(g.pks, gatePacket{src: p.Src, dst: p.Dst, seq: p.Packet.Sequence, commitment: c[:], ack: ak[:], committed: a.Height()})
 	return true
 }
 
@@ -157,6 +162,7 @@ func gateCases(r *core.Run) {
 				return true
 			}
 			proofAt := map[int64][]byte{}
+			ackProofAt := map[string][]byte{} // commitment proof bytes -> acknowledgement proof of the same height
 			for _, h := range []int64{H1, H2, H3} {
 				p, _, err := w.Proof(a, host.PacketCommitmentKey(pk.src, pk.dst, pk.seq), h)
 				if err != nil {
@@ -164,6 +170,12 @@ func gateCases(r *core.Run) {
 					return
 				}
 				proofAt[h] = p
+				pa, _, err := w.Proof(a, host.PacketAcknowledgementKey(pk.src, pk.dst, pk.seq), h)
+				if err != nil {
+					r.Inconclusive("gate: ack proof query at %d failed: %v", h, err)
+					return
+				}
+				ackProofAt[string(p)] = pa
 			}
 			// one gate call, judged
 			call := func(label string, height exported.Height, proof []byte, expect, why string, mutate func(ctx sdkCtx) error) {
@@ -198,6 +210,21 @@ func gateCases(r *core.Run) {
 					r.Violation(cid, "gate/refused/"+label, det)
 				case expect == mustReject && err == nil:
 					r.Violation(cid, "gate/honoured/"+label, det)
+				}
+				// the same gate for acknowledgement proofs
+				if ap, ok := ackProofAt[string(proof)]; ok {
+					aerr, _ := core.Catch(func() error {
+						return tmcs.VerifyPacketAcknowledgement(cctx, ck.ClientStore(cctx, name), cdc, height, ap, pk.src, pk.dst, pk.seq, pk.ack)
+					})
+					r.Eval(key+"|ack", true)
+					r.Count("gate_cases_ack", 1)
+					switch {
+					case expect == mustAccept && aerr != nil:
+						det["error"] = aerr.Error()
+						r.Violation(cid, "gate/ack/refused/"+label, det)
+					case expect == mustReject && aerr == nil:
+						r.Violation(cid, "gate/ack/honoured/"+label, det)
+					}
 				}
 				if ci == 2 && round == 0 && strings.HasPrefix(label, "delay") {
 					r.Sample(map[string]interface{}{"kind": "gate", "case": det})
